@@ -5,7 +5,7 @@ SPEC = {
     'variants': ['', 't32'],
     'lean_modules': ['N2k.Props.Consts.C04', 'N2k.Props.CallGraph', 'N2k.Props.C04'], 'props_files': ['N2k/Props/Consts/C04.lean', 'N2k/Props/CallGraph.lean', 'N2k/Props/C04.lean'],
     'translators': ['constants', 'pgn_tables', 'callgraph'],
-    'case_start': ['reset', 'reset0'],
+    'case_start': ['reset', 'reset0', 'tpseq'],
     # the whole-node traffic generator (requests, group functions, TP, claims, heartbeat) carries a C04 monitor as well
     'extra': [{'engine': 'fuzz', 'harness': 'fuzz.cpp', 'no_model': True, 'variants': ['', 't32'], 'asan_options': ':redzone=1024',
                'repo_srcs': ['N2kMsg.cpp', 'N2kStream.cpp', 'N2kMessages.cpp', 'N2kTimer.cpp', 'N2kGroupFunction.cpp',
